@@ -9,6 +9,7 @@ CONSTANTS
   TimeoutSignals = TRUE
   SkipOnErr = TRUE
   ReportRetry = TRUE
+  DeadlineArmed = TRUE
   AllowClose = TRUE
   AllowRecon = TRUE
   RecordHist = FALSE
